@@ -126,6 +126,7 @@ struct Vtx {
   int inject = -1;  // input data this processor emits into although it is not a declared emit
   int inject_pos = 0;
   int yields = 0;  // bit0: yield to other threads on entry of process(), bit1: before the emits
+  int peek = -1;   // a data this processor polls with GraphData::ready() and reads when published (never feeds the outputs)
 };
 struct Round {
   std::vector<int> in_mode;
@@ -143,6 +144,7 @@ struct Desc {
   std::vector<int> succ;       // number of dependency registrations on the data (as target + as condition)
   std::vector<int> injector;   // per input: vertex that injects it, -1
   std::vector<Round> rounds;
+  bool motif = false;
   bool static_conflict = false;   // an unconditional mutable dependency on a shared data: build() must refuse
   bool runtime_conflict = false;  // a mutable dependency on a data that has other dependencies
 };
@@ -165,6 +167,7 @@ struct Ref {
   bool any_cond_false = false, any_ess_flush = false, any_fanin = false, any_conditional = false;
 };
 Ref reference(const Desc& g, int round);
+int64_t out_value(const Desc& g, int round, int v, int k, const std::vector<In>& ins);
 
 Desc generate(Src& s, bool allow_pool) {
   Desc g;
@@ -176,13 +179,28 @@ Desc generate(Src& s, bool allow_pool) {
   if (nv2 > nv) nv = nv2;
   g.ndata = g.ninputs;
   g.injector.assign((size_t)g.ninputs, -1);
+  // planted shape (1 case in 6): two source vertices v0,v1 produce conditions c0,c1; v2 has two emits e0,e1 that are
+  // demanded only through "e0 on/unless c0" (v3) and "e1 on/unless c1" (v4): on the pool the two conditions become ready
+  // on different workers and both activate v2 at the same time (the activate-once CAS of GraphVertex::activate)
+  g.motif = s.chance(1, 6);
+  if (g.motif && nv < 5) nv = 5;
   for (int v = 0; v < nv; v++) {
     int ne = s.range(1, 2);
+    int nd = (int)s.below(4);
+    if (g.motif && v < 5) {
+      ne = v == 2 ? 2 : 1;
+      nd = v < 2 ? 0 : nd > 1 ? 1 : nd;
+    }
     if (g.ndata + ne > MAXD) ne = MAXD - g.ndata;
     if (ne <= 0) break;
     Vtx V;
     int avail = g.ndata;
-    int nd = (int)s.below(4);
+    if (g.motif && (v == 3 || v == 4)) {
+      Dep d;
+      d.target = g.vs[2].emits[(size_t)(v - 3)];
+      d.cond = g.vs[(size_t)(v - 3)].emits[0];
+      V.deps.push_back(d);  // polarity is fixed below so that it holds in round 0
+    }
     for (int i = 0; i < nd; i++) {
       Dep d;
       int recent = avail < 4 ? avail : 4;
@@ -194,7 +212,13 @@ Desc generate(Src& s, bool allow_pool) {
         d.on = !s.flip();
       }
       d.essential = s.chance(1, 4);
-      d.mutraw = s.below(64);
+      d.mutraw = s.below(256);
+      if (g.motif && v < 5) {  // the extra dependency of a planted vertex is a plain one on an input
+        d.target = (int)s.below((uint32_t)g.ninputs);
+        d.cond = -1;
+        d.essential = false;
+        d.mutraw = 0;
+      }
       V.deps.push_back(d);
     }
     for (int k = 0; k < ne; k++) {
@@ -203,7 +227,12 @@ Desc generate(Src& s, bool allow_pool) {
       V.mask.push_back(m <= 5 ? EM_VALUE : m == 6 ? EM_UNTOUCHED : EM_EMPTY);
     }
     if (s.chance(1, 24)) V.fail = 1 + (int)s.below(2);
+    if (g.motif && v < 5) {
+      V.fail = FAIL_NONE;
+      for (auto& m : V.mask) m = EM_VALUE;
+    }
     V.yields = (int)s.below(4);
+    V.peek = s.chance(1, 3) ? (int)s.below(MAXD) : -1;
     if (s.chance(1, 8)) {
       int x = (int)s.below((uint32_t)g.ninputs);
       if (g.injector[(size_t)x] < 0) {  // one injector per input: the value must not depend on who comes first
@@ -230,11 +259,11 @@ Desc generate(Src& s, bool allow_pool) {
   for (auto& V : g.vs)
     for (auto& d : V.deps) {
       bool single = g.succ[(size_t)d.target] == 1;
-      if (d.mutraw >= 1 && d.mutraw <= 12) {
+      if (d.mutraw >= 1 && d.mutraw <= 48) {
         if (single && !g.is_cond[(size_t)d.target]) d.mut = MUT_MODIFY;
-      } else if (d.mutraw >= 13 && d.mutraw <= 15) {
+      } else if (d.mutraw >= 49 && d.mutraw <= 60) {
         if (single || d.cond >= 0) d.mut = MUT_DECLARED_ONLY;
-      } else if (d.mutraw == 16) {
+      } else if (d.mutraw == 61) {
         d.mut = MUT_DECLARED_ONLY;
       }
       if (d.mut != MUT_NONE && !single) {
@@ -242,6 +271,17 @@ Desc generate(Src& s, bool allow_pool) {
         if (d.cond < 0) g.static_conflict = true;
       }
     }
+  if (g.motif) {
+    g.vs[3].deps[0].on = out_value(g, 0, 0, 0, {}) != 0;
+    g.vs[4].deps[0].on = out_value(g, 0, 1, 0, {}) != 0;
+  }
+  for (auto& V : g.vs) {
+    // "after ready() is observed the data can be used without a race" (data.h) holds for read-only data only
+    if (V.peek >= g.ndata || (V.peek >= 0 && (!g.exists[(size_t)V.peek] || g.is_cond[(size_t)V.peek]))) V.peek = -1;
+    for (auto& W2 : g.vs)
+      for (auto& d : W2.deps)
+        if (d.mut == MUT_MODIFY && d.target == V.peek) V.peek = -1;
+  }
   for (int r = 0; r < 2; r++) {
     Round R;
     for (int i = 0; i < g.ninputs; i++) {
@@ -251,12 +291,17 @@ Desc generate(Src& s, bool allow_pool) {
       R.in_val.push_back(g.is_cond[(size_t)i] ? (int64_t)(1 - (int)s.below(2)) : (int64_t)s.below(1000));
     }
     int nt = s.range(1, 3);
+    if (g.motif) {
+      R.targets.push_back(g.vs[3].emits[0]);
+      R.targets.push_back(g.vs[4].emits[0]);
+    }
     for (int k = 0; k < nt; k++) {
       int last = g.ndata < 3 ? g.ndata : 3;
       int t = k == 0 ? g.ndata - 1 - (int)s.below((uint32_t)last)
               : s.below(4) == 0 ? (int)s.below((uint32_t)g.ndata) : g.ninputs + (int)s.below((uint32_t)(g.ndata - g.ninputs));
       bool dup = false;
       for (int x : R.targets) dup |= x == t;
+      if (g.motif && (t == g.vs[2].emits[0] || t == g.vs[2].emits[1])) dup = true;  // keep v2 demanded through the conditions only
       if (!dup && g.exists[(size_t)t]) R.targets.push_back(t);
     }
     if (R.targets.empty()) R.targets.push_back(g.ndata - 1);
@@ -265,7 +310,11 @@ Desc generate(Src& s, bool allow_pool) {
     for (int i = 0; i < g.ninputs; i++) {
       bool want = s.chance(3, 4);
       if (g.injector[(size_t)i] < 0 || !want) continue;
-      if (reference(g, r).ran[(size_t)g.injector[(size_t)i]]) g.rounds[(size_t)r].in_mode[(size_t)i] = IN_ABSENT;
+      Ref before = reference(g, r);
+      if (!before.ran[(size_t)g.injector[(size_t)i]]) continue;
+      int old = g.rounds[(size_t)r].in_mode[(size_t)i];
+      g.rounds[(size_t)r].in_mode[(size_t)i] = IN_ABSENT;
+      if (!before.missing && reference(g, r).missing) g.rounds[(size_t)r].in_mode[(size_t)i] = old;  // the injector itself needs it
     }
   }
   return g;
@@ -274,7 +323,7 @@ Desc generate(Src& s, bool allow_pool) {
 std::string describe(const Desc& g) {
   char b[128];
   std::string s;
-  snprintf(b, sizeof b, "exec=%s%d in=%d;", g.executor ? "pool" : "inplace", g.executor, g.ninputs);
+  snprintf(b, sizeof b, "exec=%s%d in=%d%s;", g.executor ? "pool" : "inplace", g.executor, g.ninputs, g.motif ? " planted" : "");
   s += b;
   for (size_t v = 0; v < g.vs.size(); v++) {
     const Vtx& V = g.vs[v];
@@ -296,6 +345,8 @@ std::string describe(const Desc& g) {
     }
     if (V.fail) s += V.fail == FAIL_EARLY ? " FAIL-early" : " FAIL-late";
     if (V.inject >= 0) { snprintf(b, sizeof b, " injects d%d@%d", V.inject, V.inject_pos); s += b; }
+    if (V.peek >= 0) { snprintf(b, sizeof b, " polls d%d", V.peek); s += b; }
+    if (V.yields) { snprintf(b, sizeof b, " y%d", V.yields); s += b; }
     s += ";";
   }
   for (size_t r = 0; r < g.rounds.size(); r++) {
@@ -443,6 +494,7 @@ struct World {
   int running_total = 0;
   bool overlapped = false;      // two processors inside process() on different threads
   bool injected_live = false;   // a processor really published an input during the run
+  bool peeked = false;
 };
 
 class Proc : public GraphProcessor {
@@ -507,7 +559,30 @@ class Proc : public GraphProcessor {
     W.running_total++;
     if (V.yields & 1) H::yield();
     else H::point();
+    // 1. take the values exactly the way a processor does (through the dependency only), so that the happens-before
+    //    check on the payload sees the synchronisation babylon itself provides and nothing added by the harness
     std::vector<In> ins;
+    for (size_t i = 0; i < V.deps.size(); i++) {
+      const Dep& d = V.deps[i];
+      GraphDependency* gd = vertex().anonymous_dependency(i);
+      In in;
+      if (g.is_cond[(size_t)d.target]) {
+        const int64_t* p = gd->value<int64_t>();
+        in.present = p != nullptr;
+        if (p) in.val = *p;
+      } else if (d.mut != MUT_NONE) {
+        Payload* p = gd->mutable_value<Payload>();
+        in.present = p != nullptr;
+        if (p && d.mut == MUT_MODIFY) p->v.set(mutate_value(p->v.get("mutable dependency"), _vid), "mutable dependency");
+        if (p) in.val = p->v.get("mutable dependency");
+      } else {
+        const Payload* p = gd->value<Payload>();
+        in.present = p != nullptr;
+        if (p) in.val = p->v.get("dependency value");
+      }
+      ins.push_back(in);
+    }
+    // 2. every dependency had its condition ready and, if established, its target ready
     for (size_t i = 0; i < V.deps.size(); i++) {
       const Dep& d = V.deps[i];
       GraphDependency* gd = vertex().anonymous_dependency(i);
@@ -525,28 +600,21 @@ class Proc : public GraphProcessor {
       if (gd->established() != est || gd->ready() != est)
         H::fail("deps-ready", "round %d: v%d dependency %zu on d%d: established()=%d ready()=%d but the condition says %d", W.round,
                 _vid, i, d.target, (int)gd->established(), (int)gd->ready(), (int)est);
-      In in;
       bool expect_present = est && !tt->empty();
-      if (g.is_cond[(size_t)d.target]) {
-        const int64_t* p = gd->value<int64_t>();
-        in.present = p != nullptr;
-        if (p) in.val = *p;
-      } else if (d.mut != MUT_NONE) {
-        Payload* p = gd->mutable_value<Payload>();
-        in.present = p != nullptr;
-        if (p && d.mut == MUT_MODIFY) p->v.set(mutate_value(p->v.get("mutable dependency"), _vid), "mutable dependency");
-        if (p) in.val = p->v.get("mutable dependency");
-      } else {
-        const Payload* p = gd->value<Payload>();
-        in.present = p != nullptr;
-        if (p) in.val = p->v.get("dependency value");
-      }
-      if (in.present != expect_present)
+      if (ins[i].present != expect_present)
         H::fail("deps-ready", "round %d: v%d dependency %zu on d%d: value pointer %s but established=%d target empty=%d", W.round, _vid, i,
-                d.target, in.present ? "non-null" : "null", (int)est, (int)tt->empty());
-      ins.push_back(in);
+                d.target, ins[i].present ? "non-null" : "null", (int)est, (int)tt->empty());
     }
     W.seen[me] = ins;
+    if (V.peek >= 0) {
+      GraphData* pd = W.data[(size_t)V.peek];
+      if (pd->ready() && !pd->empty()) {
+        const Payload* p = pd->value<Payload>();
+        if (!p) H::fail("values", "round %d: v%d polled d%d: ready and not empty but value<Payload>() is null", W.round, _vid, V.peek);
+        (void)p->v.get("value read after GraphData::ready() returned true");
+        W.peeked = true;
+      }
+    }
     if (V.yields & 2) H::yield();
     else H::point();
     int ret = 0;
@@ -667,6 +735,7 @@ void run_graph_case(const Desc& g, CaseStats& st) {
     W.ran.assign(nv, 0); W.running.assign(nv, 0); W.running_tid.assign(nv, -1); W.seen.assign(nv, {});
     W.running_total = 0;
     W.injected_live = false;
+    W.peeked = false;
     W.absent.assign((size_t)g.ninputs, 0);
     for (int i = 0; i < g.ninputs; i++) {
       GraphData* d = W.data[(size_t)i];
@@ -757,6 +826,7 @@ void run_graph_case(const Desc& g, CaseStats& st) {
     if (ref.any_cond_false) H::label("cond_not_established");
     if (ref.any_ess_flush) H::label("essential_flush");
     if (W.injected_live) H::label("injected_during_run");
+    if (W.peeked) H::label("polled_ready_then_read");
     if (W.overlapped) H::label("processors_overlapped");
     size_t nran = 0;
     for (size_t v = 0; v < nv; v++) nran += W.ran[v] ? 1 : 0;
@@ -801,6 +871,7 @@ void label_graph(const Desc& g) {
   if (fail) H::label("g_failing_processor");
   if (inj) H::label("g_injector");
   if (g.vs.size() >= 5) H::label("g_vertices_ge5");
+  if (g.motif) H::label("g_planted_double_activation_shape");
 }
 
 void silence_babylon_log() {
